@@ -1,6 +1,7 @@
 import GlueVerif.Model.C02Serial
 import GlueVerif.Lemmas.C02Table
 import GlueVerif.Lemmas.C02Total
+import GlueVerif.Lemmas.C02LoadLate
 import GlueVerif.Generated.C02Registry
 /-!
 # C02 — a saved session restores to an observationally equivalent session
@@ -75,6 +76,28 @@ theorem roundtrip_framework_partial (h : Heap) (main : Nat) (rank : Nat → Nat)
   exact ⟨st, T, hs, fun fuel hf =>
     roundtrip_acyclic_core rank (noOwn_iff h hno) (allEarly_iff h hearly) (acyclicBy_iff rank h hacyc) hs fuel hf⟩
 
+/-- **roundtrip_framework with cycles** (generator loaders = two-phase construction).  Classes may read
+fields after their loader's `yield` (`late`): the object is registered first and completed afterwards,
+which is what lets `GlueUnSerializer` load cyclic graphs (glue's Data ↔ GroupedSubset ↔ SubsetGroup).
+Hypothesis `lateCyclesBy rank h`: early edges strictly decrease `rank`, late edges do not increase it —
+i.e. every cycle consists of late edges only.  Then, as above, `serialize` succeeds and un-serializing
+its output succeeds (for every recursion depth above the number of registered objects + 1) and satisfies
+`specRoundTrip`: same shape, literals, strings, sharing and cycles, by name.
+
+Still open (hence `_partial`): inlined (`context.do`) sub-objects and `__setgluestate_callback__`
+fields; see `props.d/C02/design.md` for the exact hypotheses under which they are expected to hold. -/
+theorem roundtrip_framework_cycles_partial (h : Heap) (main : Nat) (rank : Nat → Nat)
+    (hwf : wellFormed h main = true) (hno : noOwn h = true) (hcb : noCb h = true)
+    (hcyc : lateCyclesBy rank h = true) :
+    ∃ st T, serialize h main = .ok (st, T) ∧
+      ∀ fuel, st.reg.length + 1 < fuel →
+        ∃ ls i, unserialize T fuel = (ls, .ok (.ref i)) ∧ specRoundTrip h st.reg ls = true := by
+  obtain ⟨hm, hw⟩ := wellFormed_iff h main hwf
+  obtain ⟨st, T, hs⟩ := serialize_total h main (noOwn_iff h hno) hm hw
+  obtain ⟨hE, hL⟩ := lateCyclesBy_iff rank h hcyc
+  exact ⟨st, T, hs, fun fuel hf =>
+    roundtrip_late_core rank (noOwn_iff h hno) (noCb_phases h hcb) hE hL hs fuel hf⟩
+
 /-- The hypotheses are satisfiable by a non-trivial graph: a diamond with a shared leaf, clashing and
 literal-looking labels (main → a, b; a → leaf; b → leaf, a). -/
 def demoHeap : Heap := [
@@ -90,6 +113,16 @@ example : (match serialize demoHeap 0 with
     | .ok (st, _) => st.reg.map (·.2)
     | .error _ => []) =
     [mainName, ['s', 't', '_'], ['_', 's', 't', '_', '_', '0'], ['_', 's', 't', '_', '_', '0', '_', '0']] := by decide
+
+/-- A cyclic graph inside the hypothesis of `roundtrip_framework_cycles_partial`: main → a (early),
+a → b (late), b → a (late), b → b (late). -/
+def demoCycle : Heap := [
+  { cls := 0, label := ['m'], fields := [⟨.early, .ref 1⟩] },
+  { cls := 1, label := ['a'], fields := [⟨.late, .ref 2⟩, ⟨.early, .lit 3⟩] },
+  { cls := 1, label := ['a'], fields := [⟨.late, .ref 1⟩, ⟨.late, .ref 2⟩] } ]
+
+example : wellFormed demoCycle 0 = true ∧ noOwn demoCycle = true ∧ noCb demoCycle = true ∧
+    lateCyclesBy (candidateRank demoCycle) demoCycle = true := by decide
 
 /-! ## Part B — the generated dispatch table -/
 
